@@ -64,6 +64,13 @@ def run(ctx):
                 while pk.point.parity != (ti // 2) % 2:
                     d = rng.randrange(1, N256)
                     pk = PrivateKey(d)
+            if ti == 1:
+                # an internal key whose x coordinate starts with a zero byte (found by search)
+                for _ in range(3000):
+                    if pk.point.xonly()[0] == 0:
+                        break
+                    d = rng.randrange(1, N256)
+                    pk = PrivateKey(d)
             scripts = []
             leaves = []
             for k in range(n):
